@@ -55,6 +55,10 @@ def run(ctx):
                       found=show(t5[r][c], maxdepth=5), expected=show(t6[r][c], maxdepth=5), detail='equal value numbers')
     ctx.floor('R06.1 cells', n, 40)
 
+    # ---- R06.6 the 5-DOF solver maps its angles back with the inverse of forward's joint map
+    ctx.rule('R06.6', 'the 5-DOF solver writes (theta + offsets[i]) * sign[i] for J1..J5: the inverse of forward\'s joint map (same rule as R02.1)')
+    C02.check_inverse_map(ctx, five, 5, 'R06.6')
+
     # ---- R06.2
     sols = [util.table_locals(five)[1]]
     ctx.require(sols[0] is not None, 'candidate array (element-wise rewritten [[f64;6];8]) in the 5-DOF solver')
